@@ -143,6 +143,20 @@ theorem fresh_family_example :
     (run Flags.good (initOf famHeap [0]) docDeleteHistory).2 =
       [.ids [some 0], .none, .ids [], .ids [none]] := by decide
 
+/-- the same through `Document.SetNodes(nil)` -/
+def flagsNoDocSetNodes : Flags :=
+  { Flags.good with docSetNodesRebuildsPointers := false, docSetNodesClearsFamilies := false,
+                    docSetNodesResetsIndividuals := false }
+def docSetNodesHistory : List Op := [.read .families, .docSetNodes [], .read .families, .read (.byPointer [70])]
+
+theorem stale_setnodes_counterexample :
+    (run flagsNoDocSetNodes (initOf famHeap [0]) docSetNodesHistory).2 =
+      [.ids [some 0], .none, .ids [some 0], .ids [some 0]] := by decide
+
+theorem fresh_setnodes_example :
+    (run Flags.good (initOf famHeap [0]) docSetNodesHistory).2 =
+      [.ids [some 0], .none, .ids [], .ids [none]] := by decide
+
 /-- family `0` (F) and individual `1` (I1): `Families()` of the individual is cached empty, then
     `AddChild` — without the FamilyNode override the individual still has no family -/
 def childHeap : List NodeRec := [⟨tFAM, [], [70], [], 0⟩, ⟨tINDI, [], [73, 49], [], 0⟩]
